@@ -42,6 +42,8 @@ type Session struct {
 	useSnap  bool // settle with goroutine snapshots instead of synctest.Wait
 	served   bool
 	nInvoked int
+	sfailed  map[string]bool // "rpc/end": a send failed
+	untagged []int           // caller RPCs started without any metadata (no x-rpc tag), oldest first
 }
 
 type rpcState struct {
@@ -99,17 +101,21 @@ func (a *actor) setCur(s *Step) {
 // NewSession prepares a session; it must be created inside the synctest bubble.
 func NewSession(cfg Config) *Session {
 	s := &Session{
-		Cfg:    cfg,
-		Log:    tr.New(),
-		rpcs:   map[int]*rpcState{},
-		gates:  map[string]bool{},
-		parked: map[string]chan struct{}{},
-		quit:   make(chan struct{}),
+		Cfg:     cfg,
+		Log:     tr.New(),
+		rpcs:    map[int]*rpcState{},
+		gates:   map[string]bool{},
+		parked:  map[string]chan struct{}{},
+		quit:    make(chan struct{}),
+		sfailed: map[string]bool{},
 	}
 	for _, g := range cfg.Gates {
 		s.gates[g] = true
 	}
-	s.useSnap = cfg.Cap > 0
+	// A goroutine held at a gate may hold one of the library's mutexes (the
+	// stream-creation lock, the send mutex): others then wait on a mutex, which
+	// synctest does not treat as idle, so gated runs settle by snapshots.
+	s.useSnap = cfg.Cap > 0 || len(cfg.Gates) > 0
 	return s
 }
 
@@ -118,6 +124,18 @@ func (s *Session) emit(ev string, f tr.E) {
 		f = tr.E{}
 	}
 	s.Log.Emit(ev, f)
+}
+
+func (s *Session) sendFailed(rpc int, end string) bool {
+	s.mu.Lock()
+	defer s.mu.Unlock()
+	return s.sfailed[fmt.Sprintf("%d/%s", rpc, end)]
+}
+
+func (s *Session) markSendFailed(rpc int, end string) {
+	s.mu.Lock()
+	s.sfailed[fmt.Sprintf("%d/%s", rpc, end)] = true
+	s.mu.Unlock()
 }
 
 // ---- hooks -------------------------------------------------------------------
@@ -176,6 +194,13 @@ func (s *Session) yieldHook(point string, id int64) {
 	}
 	if s.logsHook(point) {
 		s.emit("hook", tr.E{"point": point, "sid": id, "a": 0, "b": 0})
+	}
+}
+
+// carYield is the carrier's yield point: only gated points do anything.
+func (s *Session) carYield(point string, id int64) {
+	if s.gates[point] || s.gates[fmt.Sprintf("%s@%d", point, id)] {
+		s.yieldHook(point, id)
 	}
 }
 
@@ -272,7 +297,7 @@ type stub struct{ s *Session }
 
 func (st stub) OpenTunnel(ctx context.Context, opts ...grpc.CallOption) (grpc.BidiStreamingClient[tunnelpb.ClientToServer, tunnelpb.ServerToClient], error) {
 	s := st.s
-	car := sim.New(ctx, sim.Options{T: 1, Cap: s.Cfg.Cap, Auto: s.Cfg.Auto, Log: s.Log})
+	car := sim.New(ctx, sim.Options{T: 1, Cap: s.Cfg.Cap, Auto: s.Cfg.Auto, Log: s.Log, Yield: s.carYield})
 	s.setCarrier(car)
 	if s.Cfg.RawSrv == "" {
 		se := &sim.ServerEnd[tunnelpb.ClientToServer, tunnelpb.ServerToClient, *tunnelpb.ClientToServer, *tunnelpb.ServerToClient]{C: car, Desc: wire.Desc}
@@ -289,7 +314,7 @@ func (st stub) OpenTunnel(ctx context.Context, opts ...grpc.CallOption) (grpc.Bi
 
 func (st stub) OpenReverseTunnel(ctx context.Context, opts ...grpc.CallOption) (grpc.BidiStreamingClient[tunnelpb.ServerToClient, tunnelpb.ClientToServer], error) {
 	s := st.s
-	car := sim.New(ctx, sim.Options{T: 1, Reverse: true, Cap: s.Cfg.Cap, Auto: s.Cfg.Auto, Log: s.Log})
+	car := sim.New(ctx, sim.Options{T: 1, Reverse: true, Cap: s.Cfg.Cap, Auto: s.Cfg.Auto, Log: s.Log, Yield: s.carYield})
 	s.setCarrier(car)
 	if s.Cfg.RawCli == "" {
 		se := &sim.ServerEnd[tunnelpb.ServerToClient, tunnelpb.ClientToServer, *tunnelpb.ServerToClient, *tunnelpb.ClientToServer]{C: car, Desc: wire.Desc}
@@ -426,7 +451,7 @@ func (s *Session) openRawNetClient() {
 		ctx = metadata.AppendToOutgoingContext(ctx, "grpctunnel-negotiate", "on")
 	}
 	if s.Cfg.Dir == "fwd" {
-		car := sim.New(ctx, sim.Options{T: 1, Cap: s.Cfg.Cap, Auto: s.Cfg.Auto, Log: s.Log})
+		car := sim.New(ctx, sim.Options{T: 1, Cap: s.Cfg.Cap, Auto: s.Cfg.Auto, Log: s.Log, Yield: s.carYield})
 		s.setCarrier(car)
 		se := &sim.ServerEnd[tunnelpb.ClientToServer, tunnelpb.ServerToClient, *tunnelpb.ClientToServer, *tunnelpb.ServerToClient]{C: car, Desc: wire.Desc}
 		go func() {
@@ -436,7 +461,7 @@ func (s *Session) openRawNetClient() {
 		}()
 		return
 	}
-	car := sim.New(ctx, sim.Options{T: 1, Reverse: true, Cap: s.Cfg.Cap, Auto: s.Cfg.Auto, Log: s.Log})
+	car := sim.New(ctx, sim.Options{T: 1, Reverse: true, Cap: s.Cfg.Cap, Auto: s.Cfg.Auto, Log: s.Log, Yield: s.carYield})
 	s.setCarrier(car)
 	se := &sim.ServerEnd[tunnelpb.ServerToClient, tunnelpb.ClientToServer, *tunnelpb.ServerToClient, *tunnelpb.ClientToServer]{C: car, Desc: wire.Desc}
 	go func() {
